@@ -143,7 +143,9 @@ def guardZeroDiv (cfg : EulerCfg) (run : Content → Except Err (Content × Opti
   | .ok _ =>
     match zeroDivAt cfg c with
     | .error e => .error e
-    | .ok true => .ok (c, none)
+    | .ok true =>
+      -- regenerated from scan.py: do the four workers still catch `ZeroDivisionError`?
+      if Generated.C09.workersCatchZeroDivision then .ok (c, none) else .error (.other "ZeroDivisionError")
     | .ok false => run c
 
 /-- `Simulator(model).simulate_to_steady_state()`: the constructor first, then the integrator, which may raise -/
